@@ -181,6 +181,8 @@ fn dst_slice(ctx: &mut Ctx) {
     // 2026-03-20 12:00:00 UTC and 2026-10-20 12:00:00 UTC
     for (zone, stamp) in [("GMT0BST,M3.5.0/1,M10.5.0", 1_774_008_000i128), ("GMT0BST,M3.5.0/1,M10.5.0", 1_792_497_600), ("EST5EDT,M3.2.0,M11.1.0", 1_772_798_400), ("UTC0", 1_774_008_000)] {
         std::env::set_var("TZ", zone);
+        // (chrono looks at TZ again at most once per second)
+        std::thread::sleep(Duration::from_millis(1100));
         let _ = crate::sandbox::force_remove(&dir);
         if std::fs::create_dir(&dir).is_err() {
             break;
@@ -229,6 +231,7 @@ fn dst_slice(ctx: &mut Ctx) {
         Some(v) => std::env::set_var("TZ", v),
         None => std::env::remove_var("TZ"),
     }
+    std::thread::sleep(Duration::from_millis(1100));
 }
 
 fn one_age_case(ctx: &mut Ctx, kind: char, period: i128, k: i128, age: i128, phase: i64) {
